@@ -45,6 +45,9 @@ class Report {
 }
 
 const report = new Report()
+// the runtime reports its warnings on the console as well; they are collected through the warning listener instead
+const realLog = console.log.bind(console)
+console.log = console.warn = console.error = console.info = () => {}
 const t0 = Date.now()
 let exitCode = 0
 try {
@@ -81,5 +84,5 @@ const res = {
 }
 const text = JSON.stringify(res, (k, v) => (typeof v === 'function' ? `[Function ${v.name}]` : v === undefined ? null : typeof v === 'number' && !Number.isFinite(v) ? String(v) : typeof v === 'bigint' ? String(v) : v))
 if (out) fs.writeFileSync(out, text)
-else console.log(text)
+else realLog(text)
 process.exit(exitCode)
